@@ -285,7 +285,11 @@ func (w *World) enabled() []Action {
 	// 1d. goroutines parked at armed pre-emption points
 	for _, y := range w.yields {
 		y := y
-		acts = append(acts, Action{ID: fmt.Sprintf("resume|%s|%d", y.site, y.n), W: cfg.W.Reply, Do: func() {
+		rw := cfg.W.Reply
+		if y.site == "consumer.trackoffset" {
+			rw = 2 // leave room for a Commit to land inside the acknowledgement
+		}
+		acts = append(acts, Action{ID: fmt.Sprintf("resume|%s|%d", y.site, y.n), W: rw, Do: func() {
 			w.mu.Lock()
 			for i, z := range w.yields {
 				if z == y {
